@@ -4,8 +4,7 @@ SPEC = {
     'theorems': [
         'C06_batch_is_fold', 'C06_read_your_writes', 'C06_read_after_batch',
         'C06_iter_refines', 'C06_iter_collect_spec', 'C06_seek_spec', 'C06_prefix_range',
-        'C06_badger_iter_collect_refuted', 'C06_badger_seek_refuted',
-        'C06_badger_iter_refines_partial', 'C06_badger_iter_collect_partial',
+        'C06_badger_iter_refines', 'C06_badger_iter_collect', 'C06_badger_seek_spec',
     ],
     'allowed_axioms': [],
     'shard': 45,
@@ -14,10 +13,12 @@ SPEC = {
             '(incl. stored keys and, unrestricted stream only, the empty non-nil slice) followed by Rewind|Seek first and then '
             'Next/Seek/Rewind mixes and drains; two final full scans) run on one backend, from an empty store; keys 1..3 bytes over '
             'the alphabets {a,b}, {a,b,c,1}, {00,01,fe}, {00,ff,61}, {fe,ff}; the same history runs on memdb, leveldb and (alphabets '
-            'without 0xff only, fewer histories) gobadgerdb. guarded stream: no stored key equals the resolved end bound and every '
-            'Seek target is non-empty and inside [start,end) (any spec failure is a violation); unrestricted stream: anything. '
-            'Plus the fixed witness of the known finding on all three backends. non-trivial = some Get found a value or some '
-            'iterator call was valid; distinct = distinct Gallina case terms',
+            'without 0xff only, fewer histories) gobadgerdb. stream "inside": no stored key equals the resolved end bound and every '
+            'Seek target is non-empty and inside [start,end) (calls are valid more often); stream "any": anything, incl. stored keys '
+            'equal to the end bound and empty / out-of-range Seek targets. Any spec failure on any backend is a violation (no open '
+            'finding). Plus two fixed cases on all three backends: the inputs of the two repaired Badger findings (stored key = end '
+            'bound; Seek with empty / below-start / at-or-above-end targets, key 00 stored). non-trivial = some Get found a value or '
+            'some iterator call was valid; distinct = distinct Gallina case terms',
     'trusted_base': [
         'goleveldb leveldb.DB / memdb.DB: Get/Put/Delete are a map; Batch replay in order; range iterator contract '
         '(SOI/EOI, First/Last/Seek/Next/Prev as stated in C06/Model.v) - oracle, validated by every run',
@@ -31,16 +32,19 @@ SPEC = {
         'leveldb reverse = not valid, badger = second entry; the property says nothing about it)',
         'errors returned by Delete/Batch.Write are not observables of this property (memdb Delete of an absent key returns '
         '"not found"); Get and Iterator results are',
-        'keys are non-empty (badger rejects empty keys)',
+        'keys are non-empty (badger rejects empty keys: the Badger refinement theorem carries keys_nonempty m = true, needed '
+        'only for a reverse Seek with an empty target; Example badger_empty_key_outside_domain shows the model differs outside it)',
     ],
     'manifest': {
-        'level_text': 'full for the LevelDB/memdb wrapper (batch = fold, read-your-writes, iterator refinement of the sorted-map '
-                      'iterator for arbitrary maps, bounds and call sequences); partial for the Badger wrapper: the full statements '
-                      'are refuted (two open findings) and proved under the boolean guards end_not_stored and seeks_in_range',
+        'level_text': 'full for all three wrappers (batch = fold, read-your-writes, iterator refinement of the sorted-map '
+                      'iterator for arbitrary maps, bounds and call sequences). The Badger wrapper, after the fixes 2b9b4c3 (end bound '
+                      'exclusive) and be4d3e4 (Seek clamped into the range), refines the same abstract iterator as LevelDB/memdb for '
+                      'every store without an empty key (Badger cannot hold one); its collect theorem needs no condition',
         'level_note': 'the key/value libraries are oracles with a stated contract that every run validates; the model is the '
                       'chain33 wrapper logic (bytesPrefix, checkKey, Rewind/Seek/Next, reverse-seek adjustment, batches, Get)',
         'technique': 'Coq proof (simulation between the wrapper over a library cursor and a position in the list of in-range '
-                     'entries; batch by extensionality of sorted maps) + in-kernel correspondence check over operation histories',
+                     'entries, for the goleveldb zipper cursor and for the badger whole-store cursor; batch by extensionality of '
+                     'sorted maps) + in-kernel correspondence check over operation histories',
     },
     'harness_timeout': {'quick': 300, 'thorough': 3000},
 }
